@@ -289,3 +289,40 @@ WLOOP = [{"name": "VH_ST_WorkerLoop", "pkg": pkg, "labels": ["C12:", "C16:"], "o
 for k in ("C12", "C16", "C11"):
     reg[k]["harnesses"] += [dict(h, opts=dict(h["opts"]), opts_thorough=dict(h["opts_thorough"])) for h in WLOOP]
 reg["C12"]["explanation"] += "; the store workers' loop (Start, store.Collect, Process, EnqueueCQE) answers every queued submission exactly once, in order, for batch sizes 1 and 2 and either timing of the flush signal, and returns when its queue is closed"
+
+reg["C18"]["harnesses"].append({"name": "VH_SN_Resolve", "pkg": "internal/app/subsystems/aio/sender", "labels": ["C19:poll-address", "C19:exactly-one"], "reach": ["poll-address"]})
+reg["C18"]["explanation"] += "; a poll://group/id address is translated by the sender into exactly that group and id (the transport then looks the listener up under the name it registered with)"
+
+# ---- third round of seeded changes (variants D): obligations that existed but were not posed by the property
+# the change was written against, and units that were not encoded
+CLAIMOPT = {"slots.callbacks": 0, "slots.locks": 0, "slots.schedules": 0, "slots.promises": 2, "slots.tasks": 2}
+reg["C02"]["harnesses"] += co(["VH_T_TimeoutSweep"], ["C07:"], opts=TASKOPT, optsT=TASKOPT_T, reach=REACH_P) + co(["VH_P_TimeoutSweep"], ["C01:", "C04:"], reach=REACH_P) \
+    + co(["VH_L_TimeoutSweep"], ["C09:"], opts=LOCKOPT, optsT=LOCKOPT_T, reach=REACH_P)
+reg["C02"]["explanation"] += "; the background sweeps are part of every history: their writes are pinned to the state they read (task, promise and lock sweeps)"
+FRONT_COPY = ["C20:request-fields-copied", "C20:task-fields-copied", "C20:http-request-fields-copied", "C20:http-task-fields-copied", "C20:http-path-id", "C20:http-kernel-called"]
+reg["C03"]["harnesses"] += front(["CreatePromise", "CreatePromiseAndTask", "CompletePromise"], ["CreatePromise", "CreatePromiseAndTask", "ResolvePromise"], FRONT_COPY)
+reg["C03"]["explanation"] += "; the idempotency key, strict flag and value the kernel compares are exactly the ones the client sent (HTTP and gRPC create / create-with-task / complete handlers end to end)"
+reg["C03"]["assumptions"] = reg["C03"]["assumptions"] + FRONT_ASSUME
+reg["C06"]["harnesses"] += store(["VH_R_ReadTasks"], ["C11:"]) + co(["VH_G_ProgressTasks"], ["C11:"], opts=SWEEPOPT, optsT=SWEEPOPT_T, reach=REACH_P)
+reg["C06"]["explanation"] += "; recovery after a restart is the ordinary background processing on the stored state: the lease sweep reads every enqueued or claimed task and puts the overdue ones back"
+SNP = {"name": "VH_SN_Process", "pkg": "internal/app/subsystems/aio/sender", "labels": ["C19:exactly-one", "C19:undeliverable", "C19:done-answers"], "reach": ["delivered", "failed-hand-off"]}
+for k in ("C08", "C11", "C12"):
+    reg[k]["harnesses"].append(dict(SNP))
+reg["C08"]["explanation"] += "; every hand-off is answered exactly once by the sender, a refused or undeliverable one with a failure (so that the dispatcher retries it)"
+FLUSH = [{"name": "VH_ST_Flush", "pkg": pkg, "labels": ["C12:"], "reach": ["done"]} for pkg in (SQ, PG)]
+for k in ("C12", "C11"):
+    reg[k]["harnesses"] += [dict(h) for h in FLUSH]
+reg["C12"]["explanation"] += "; a tick's flush reaches every store worker (1..3 Postgres workers, flush signal pending or not)"
+for h in reg["C15"]["harnesses"]:
+    if h["name"].startswith("VH_H_") or h["name"].startswith("VH_G_"):
+        h["labels"] = sorted(set(h["labels"] + FRONT_COPY))
+reg["C15"]["explanation"] += "; equivalent HTTP and gRPC requests become the same kernel request because each front end passes every client field to the kernel unaltered (path ids included)"
+reg["C20"]["harnesses"] += co(["VH_C07_Claim"], ["C01:claim-payload"], opts=CLAIMOPT, reach=REACH_P)
+reg["C20"]["harnesses"] += grpc(["C20:"], ["CreatePromiseAndTask", "ResolvePromise", "CreateCallback", "CreateSubscription", "ClaimTask", "CompleteTask", "AcquireLock", "ReadSchedule"])
+reg["C20"]["explanation"] += "; the promises carried in a claim payload are the stored rows of the promises the task's message names"
+
+PH = {"name": "VH_PL_PollHandler", "pkg": "internal/app/plugins/poll", "reach": ["refused", "served"]}
+reg["C19"]["harnesses"].append(dict(PH, labels=["C19:", "C18:"]))
+reg["C18"]["harnesses"].append(dict(PH, labels=["C18:", "C19:listener", "C20:message"]))
+reg["C13"]["harnesses"].append(dict(PH, labels=["C13:"]))
+reg["C18"]["explanation"] += "; the listener side (PollHandler.ServeHTTP over net/http contract stubs) registers a connection under exactly the group and id of its decoded request path, refuses when the registration queue is full, relays a message as one server-sent event verbatim and reports its disconnect exactly once"
